@@ -612,3 +612,293 @@ M.contract(P_DDVS + ':stacked', params=dict(base_path=ANY_DDV, path_suffix=PART)
                     'base-tail-joined-with-the-suffix': lambda base_path, path_suffix, result:
                     tail_view(result) == join(tail_view(base_path), P(path_suffix.value())),
                     'well-formed': lambda result: wf(result)}, raises_only=())
+
+
+# ============================================================================== symbols and path SDVs
+# Induction over the order of definition (a symbol refers to earlier symbols only, C08): whatever PathSdv the
+# symbol table holds resolves to a well-formed PathDdv (`PathSdvI.resolve` -> `PathDdvI`); every PathSdv class
+# of the path parser is proved to resolve to a well-formed PathDdv again -- `however many definitions deep`.
+
+from exactly_lib.symbol.sdv_structure import SymbolContainer, SymbolReference
+from exactly_lib.symbol.value_type import ValueType
+from exactly_lib.util.symbol_table import SymbolTable
+from exactly_lib.type_val_deps.types.path.path_sdv import PathSdv, PathPartSdv
+from exactly_lib.type_val_deps.types.path.path_sdv_impls import (constant as sdv_constant, path_rel_symbol,
+                                                                 path_from_symbol_reference, path_part_sdvs as part_impl)
+from exactly_lib.type_val_deps.types.string_.string_sdv import StringSdv
+from exactly_lib.type_val_deps.types.string_.string_ddv import StringDdv
+from exactly_lib.type_val_deps.types.list_.list_sdv import ListSdv
+from exactly_lib.type_val_deps.types.matcher import MatcherSdv
+from exactly_lib.type_val_deps.sym_ref.w_str_rend_restrictions import value_restrictions, reference_restrictions
+from exactly_lib.impls.types.path import parse_path, parse_relativity
+
+P_SDV = 'exactly_lib.type_val_deps.types.path.path_sdv_impls'
+P_PARSE = 'exactly_lib.impls.types.path.parse_path'
+
+
+class StringDdvI(Interface):
+    target_class = StringDdv
+    methods = {'value_when_no_dir_dependencies': Method(returns=Str, pure=True)}
+
+
+class StringSdvI(Interface):
+    target_class = StringSdv
+    methods = {'resolve': Method(returns=Iface(StringDdvI), pure=True)}
+
+
+class PathSdvI(Interface):
+    """any PathSdv of the symbol table: resolves to a well-formed PathDdv (induction hypothesis)"""
+    target_class = PathSdv
+    methods = {'resolve': Method(returns=ANY_DDV, pure=True)}
+
+
+class ListSdvI(Interface):
+    target_class = ListSdv
+
+
+class LogicSdvI(Interface):
+    target_class = MatcherSdv
+
+
+class PartSdvI(Interface):
+    """any PathPartSdv: resolves to some string (NOT assumed to be relative)"""
+    target_class = PathPartSdv
+    methods = {'resolve': Method(returns=PART, pure=True)}
+
+
+M.assume('a string used as a path component has no directory dependency (value_when_no_dir_dependencies() does not '
+         'raise): references inside path arguments carry PATH_COMPONENT_STRING_REFERENCES_RESTRICTION, checked by C08 '
+         'before anything is resolved')
+
+_NON_DATA_TYPES = [t for t in ValueType if t not in (ValueType.PATH, ValueType.STRING, ValueType.LIST)]
+
+
+def _mk_container(interp, name):
+    """A symbol-table entry.  value_type and the class of the sdv agree (established by the `def` instruction:
+    one parser per type, C08)."""
+    k = interp.st.choose(4)
+    interp.st.assume(interp.st.fresh_int(name + '.kind') == k)
+    if k == 0:
+        sdv, vt = Iface(PathSdvI).make(interp, name + '.sdv'), ValueType.PATH
+    elif k == 1:
+        sdv, vt = Iface(StringSdvI).make(interp, name + '.sdv'), ValueType.STRING
+    elif k == 2:
+        sdv, vt = Iface(ListSdvI).make(interp, name + '.sdv'), ValueType.LIST
+    else:
+        sdv, vt = Iface(LogicSdvI).make(interp, name + '.sdv'), OneOf(*_NON_DATA_TYPES).make(interp, name + '.type')
+    c = object.__new__(SymbolContainer)
+    c._sdv = sdv
+    c._value_type = vt
+    c._source_location = Any_.make(interp, name + '.source_location')
+    return c
+
+
+CONTAINER = Custom(_mk_container)
+M.assume('symbol table entries are coherent: value_type is PATH / STRING / LIST exactly when the sdv is a PathSdv / '
+         'StringSdv / ListSdv (one parser per type in the `def` instruction, C08)')
+
+
+class SymbolTableI(Interface):
+    target_class = SymbolTable
+    methods = {'lookup': Method(returns=CONTAINER, pure=True)}
+
+
+SYMBOLS = Iface(SymbolTableI)
+SYMBOL_REF = Inst(SymbolReference, _name=Str, _restrictions=Any_)
+
+# ---- path parts
+
+M.contract(P_SDV + '.path_part_sdvs:PathPartSdvAsConstantPath.__init__',
+           params=dict(self=Inst(part_impl.PathPartSdvAsConstantPath), file_name=Str), inline=True,
+           ensures={'resolves-to-the-file-name': lambda self, file_name: self.resolve(None).value() == file_name},
+           raises_only=())
+M.contract(P_SDV + '.path_part_sdvs:PathPartSdvAsConstantPath.resolve',
+           params=dict(self=Inst(part_impl.PathPartSdvAsConstantPath, _path_part=PART), symbols=SYMBOLS), inline=True,
+           ensures={'the-constant': lambda self, result: result is self._path_part}, raises_only=())
+M.contract(P_SDV + '.path_part_sdvs:PathPartSdvAsNothing.resolve',
+           params=dict(self=Inst(part_impl.PathPartSdvAsNothing), symbols=SYMBOLS), inline=True,
+           ensures={'empty': lambda result: result.value() == ''}, raises_only=())
+M.contract(P_SDV + '.path_part_sdvs:PathPartSdvAsStringSdv.resolve',
+           params=dict(self=Inst(part_impl.PathPartSdvAsStringSdv, _string=Iface(StringSdvI)), symbols=SYMBOLS),
+           inline=True,
+           ensures={'the-string-value': lambda self, symbols, result:
+           result.value() == self._string.resolve(symbols).value_when_no_dir_dependencies()}, raises_only=())
+
+# ---- replay of the one expected refutation (an absolute path SUFFIX escapes the relativity root; doc/BUGS.rst)
+
+_REPLAY_ABS_SUFFIX = '''
+import pathlib
+from exactly_lib.impls.types.path import parse_path
+from exactly_lib.section_document.element_parsers.token_stream import TokenStream
+from exactly_lib.symbol.sdv_structure import container_of_builtin
+from exactly_lib.symbol.value_type import ValueType
+from exactly_lib.tcfs.hds import HomeDs
+from exactly_lib.tcfs.path_relativity import RelOptionType, PathRelativityVariants
+from exactly_lib.tcfs.relative_path_options import REL_OPTIONS_MAP
+from exactly_lib.tcfs.sds import SandboxDs
+from exactly_lib.tcfs.tcds import TestCaseDs
+from exactly_lib.type_val_deps.types.path import path_sdvs, path_ddvs
+from exactly_lib.type_val_deps.types.path.rel_opts_configuration import RelOptionsConfiguration, \\
+    RelOptionArgumentConfiguration
+from exactly_lib.type_val_deps.types.string_ import string_sdvs
+from exactly_lib.util.symbol_table import SymbolTable
+
+FLOW = %(flow)r
+suffix = [v for k, v in MODEL.items() if k.endswith('.resolve().value()') and isinstance(v, str)]
+suffix = suffix[0] if suffix else '/abs/home/x'
+if not suffix.startswith('/'):
+    print('counter-model outside the witness class (suffix is not absolute):', repr(suffix)); sys.exit(0)
+suffix = suffix + 'abs/home/x' if suffix.endswith('/') else suffix
+rel = list(RelOptionType)[MODEL.get('self.relativity.idx', 3)] if FLOW == 'option' else RelOptionType.REL_ACT
+conf = RelOptionArgumentConfiguration(
+    RelOptionsConfiguration(PathRelativityVariants(set(RelOptionType), True), RelOptionType.REL_CWD), 'PATH', True)
+symbols = SymbolTable({
+    'S': container_of_builtin(ValueType.STRING, string_sdvs.str_constant(suffix)),
+    'B': container_of_builtin(ValueType.PATH, path_sdvs.of_rel_option_with_const_file_name(rel, 'base')),
+})
+if FLOW == 'option':
+    argument = '-' + REL_OPTIONS_MAP[rel].option_name.long + ' @[S]@'
+    expected_class = '_PathSdvOfRelativityOptionAndSuffixSdv'
+else:
+    argument = '-rel B @[S]@'
+    expected_class = 'PathSdvRelSymbol'
+sdv = parse_path.parse_path(TokenStream(argument), conf)
+assert type(sdv).__name__ == expected_class, type(sdv)
+for r in sdv.references:       # what C08 checks before anything is resolved: every restriction is satisfied
+    assert r.restrictions.is_satisfied_by(symbols, r.name, symbols.lookup(r.name)) is None
+ddv = sdv.resolve(symbols)
+tcds = TestCaseDs(HomeDs(pathlib.Path('/home/case'), pathlib.Path('/home/act')), SandboxDs('/sandbox'))
+value = ddv.value_of_any_dependency(tcds)
+claimed = ddv.relativity().relativity_type
+root = REL_OPTIONS_MAP[rel].root_resolver.from_tcds(tcds)
+under = (value == root) or (root in value.parents)
+print('argument          :', argument, '   with S =', repr(suffix))
+print('claimed relativity:', claimed)
+print('documented root   :', root)
+print('resolved value    :', value, '(under the root)' if under else '(NOT under the root)')
+sys.exit(1 if (claimed is rel and not under) else 0)
+'''
+
+
+def _replay_abs_suffix(flow):
+    return lambda model, rf: _REPLAY_ABS_SUFFIX % {'flow': flow}
+
+
+# ---- PathSdv classes
+
+M.contract(P_SDV + '.constant:PathConstantSdv.resolve',
+           params=dict(self=Inst(sdv_constant.PathConstantSdv, _path=ANY_DDV), symbols=SYMBOLS), inline=True,
+           ensures={'the-constant': lambda self, result: result is self._path}, raises_only=())
+
+
+def base_of_rel_symbol(self, symbols):
+    return symbols.lookup(self.relativity.name).sdv.resolve(symbols)
+
+
+M.contract(P_SDV + '.path_rel_symbol:PathSdvRelSymbol.resolve',
+           params=dict(self=Inst(path_rel_symbol.PathSdvRelSymbol, path_suffix=Iface(PartSdvI), relativity=SYMBOL_REF),
+                       symbols=SYMBOLS),
+           returns=ANY_DDV,
+           ensures={
+               'relativity-of-the-referenced-path': lambda self, symbols, result:
+               rel_view(result) is rel_view(base_of_rel_symbol(self, symbols)),
+               'referenced-path-joined-with-the-suffix': lambda self, symbols, result:
+               tail_view(result) == (tail_view(base_of_rel_symbol(self, symbols))
+                                     if self.path_suffix.resolve(symbols).value() == ''
+                                     else join(tail_view(base_of_rel_symbol(self, symbols)),
+                                               P(self.path_suffix.resolve(symbols).value()))),
+               'well-formed': lambda result: wf(result),
+           }, raises_only=(), replay=_replay_abs_suffix('symbol'))
+
+_VISITOR = Inst(path_from_symbol_reference._WStrRenderingValueSymbol2PathResolverVisitor,
+                suffix_sdv=Iface(PartSdvI), symbols=SYMBOLS, default_relativity=REL)
+
+
+def strip_slashes(s):
+    return s.lstrip('/')
+
+
+M.contract(P_SDV + '.path_from_symbol_reference:_WStrRenderingValueSymbol2PathResolverVisitor.visit_path',
+           params=dict(self=_VISITOR, value=Iface(PathSdvI)), returns=ANY_DDV,
+           ensures={
+               'relativity-of-the-referenced-path': lambda self, value, result:
+               rel_view(result) is rel_view(value.resolve(self.symbols)),
+               'referenced-path-joined-with-the-suffix': lambda self, value, result:
+               tail_view(result) == (tail_view(value.resolve(self.symbols))
+                                     if self.suffix_sdv.resolve(self.symbols).value() == ''
+                                     else join(tail_view(value.resolve(self.symbols)),
+                                               P(strip_slashes(self.suffix_sdv.resolve(self.symbols).value())))),
+               'well-formed': lambda result: wf(result),
+           }, raises_only=())
+
+
+def string_and_suffix(self, value):
+    return value.resolve(self.symbols).value_when_no_dir_dependencies() + \
+        self.suffix_sdv.resolve(self.symbols).value()
+
+
+M.contract(P_SDV + '.path_from_symbol_reference:_WStrRenderingValueSymbol2PathResolverVisitor.visit_string',
+           params=dict(self=_VISITOR, value=Iface(StringSdvI)), returns=ANY_DDV,
+           ensures={
+               'default-relativity-unless-absolute': lambda self, value, result:
+               rel_view(result) is (None if string_and_suffix(self, value).startswith('/')
+                                    else self.default_relativity),
+               'string-and-suffix': lambda self, value, result:
+               tail_view(result) == P(string_and_suffix(self, value)),
+               'well-formed': lambda result: wf(result),
+           }, raises_only=())
+
+M.contract(P_SDV + '.path_from_symbol_reference:_WStrRenderingValueSymbol2PathResolverVisitor.visit_list',
+           params=dict(self=_VISITOR, value=Iface(ListSdvI)),
+           raises={ValueError: {'when': lambda self: True}}, raises_only=())
+
+M.contract(P_SDV + '.path_from_symbol_reference:SdvThatIsIdenticalToReferencedPathOrWithStringValueAsSuffix.resolve',
+           params=dict(self=Inst(path_from_symbol_reference.SdvThatIsIdenticalToReferencedPathOrWithStringValueAsSuffix,
+                                 _path_or_string_symbol=SYMBOL_REF, _suffix_sdv=Iface(PartSdvI),
+                                 default_relativity=REL),
+                       symbols=SYMBOLS),
+           returns=ANY_DDV,
+           # the reference is restricted to PATH or STRING symbols (path_or_string_reference_restrictions, proved
+           # of the parser below; checked by C08 before anything is resolved)
+           requires=lambda self, symbols:
+           symbols.lookup(self._path_or_string_symbol.name).value_type in (ValueType.PATH, ValueType.STRING),
+           ensures={
+               'path-symbol: its relativity': lambda self, symbols, result:
+               symbols.lookup(self._path_or_string_symbol.name).value_type is not ValueType.PATH
+               or rel_view(result) is rel_view(symbols.lookup(self._path_or_string_symbol.name).sdv.resolve(symbols)),
+               'string-symbol: default relativity unless absolute': lambda self, symbols, result:
+               implies(symbols.lookup(self._path_or_string_symbol.name).value_type is ValueType.STRING,
+                       rel_view(result) is None or rel_view(result) is self.default_relativity),
+               'well-formed': lambda result: wf(result),
+           }, raises_only=())
+
+M.contract(P_PARSE + ':_PathSdvOfRelativityOptionAndSuffixSdv.resolve',
+           params=dict(self=Inst(parse_path._PathSdvOfRelativityOptionAndSuffixSdv, relativity=REL,
+                                 path_suffix_sdv=Iface(PartSdvI)), symbols=SYMBOLS),
+           returns=ANY_DDV,
+           ensures={
+               'relativity-is-the-option': lambda self, result: rel_view(result) is self.relativity,
+               'tail-is-the-suffix': lambda self, symbols, result:
+               tail_view(result) == P(self.path_suffix_sdv.resolve(symbols).value()),
+               'well-formed': lambda result: wf(result),
+           }, raises_only=(), replay=_replay_abs_suffix('option'))
+
+M.contract(P_PARSE + ':_PathSdvOfAbsPathAndSuffixSdv.resolve',
+           params=dict(self=Inst(parse_path._PathSdvOfAbsPathAndSuffixSdv, abs_path_root=PATH,
+                                 path_suffix_sdv=Iface(PartSdvI),
+                                 # established by __init__ (raises ValueError otherwise)
+                                 _invariant=lambda self: is_abs(den(self.abs_path_root))),
+                       symbols=SYMBOLS),
+           returns=ANY_DDV,
+           ensures={
+               'absolute': lambda result: rel_view(result) is None,
+               'root-joined-with-the-suffix': lambda self, symbols, result:
+               tail_view(result) == join(den(self.abs_path_root), P(self.path_suffix_sdv.resolve(symbols).value())),
+               'well-formed': lambda result: wf(result),
+           }, raises_only=())
+
+M.contract(P_PARSE + ':_PathSdvOfAbsPathAndSuffixSdv.__init__',
+           params=dict(self=Inst(parse_path._PathSdvOfAbsPathAndSuffixSdv), abs_path_root=PATH,
+                       path_suffix_sdv=Iface(PartSdvI)), inline=True,
+           raises={ValueError: {'when': lambda abs_path_root: not is_abs(den(abs_path_root))}},
+           ensures={'root-is-absolute': lambda self: is_abs(den(self.abs_path_root))}, raises_only=())
